@@ -708,9 +708,10 @@ pub fn attr_key(a: &Attr) -> String {
             // #[path ...]
             let inner = text.trim_start_matches("#[").trim_end_matches(']');
             let end = inner.find(|c: char| !(c.is_alphanumeric() || c == '_' || c == ':')).unwrap_or(inner.len());
-            inner[..end].to_string()
+            inner[..end].replace("r#", "")
         }
-        _ => a.name.clone(),
+        // (`r#` is spelling, not part of a segment's name)
+        _ => a.name.replace("r#", ""),
     }
 }
 
